@@ -33,7 +33,7 @@ RULE = ('one run = one seeded allocation history on one storage kind '
         'has a record in any layer at that moment; non-trivial = >= 3 '
         'allocations after >= 1 store; distinct = (kind, outcome trace)')
 BUDGET = {'quick': {'runs': 20000, 'wall': 300, 'chunk': 25},
-          'thorough': {'runs': 2500000, 'wall': 1800, 'chunk': 500}}
+          'thorough': {'runs': 2500000, 'wall': 1200, 'chunk': 500}}
 ASSUMPTIONS = [
     'ids issued in an earlier session (before close/reopen) and never '
     'stored may be issued again: the property speaks of one open session',
